@@ -114,6 +114,40 @@ def sgr_spec(c, foreground):
     return ("38" if foreground else "48", "2", str(r), str(g), str(b))
 
 
+# (max, min) pairs whose saturation is *exactly* 10% and which the double-precision computation of the running
+# Python puts below 0.1 (tolerated: the documented rule "under 10% is grey" is decided on an exact tie there).
+FLOAT_TIE_GREYS = frozenset([(55, 45), (77, 63), (110, 90), (121, 99), (147, 123), (174, 156), (201, 189), (210, 200), (246, 244)])
+
+# documented mapping, tabulated once in exact arithmetic:
+#  cube coordinate of a channel = index of the nearest of the six evenly spaced levels 0, 51, ..., 255
+#  grey level of a lightness l = (max+min)/510 = nearest of the 26 evenly spaced levels k/25 (half-way cases to even)
+CUBE_LEVEL = [min(range(6), key=lambda k, c=c: (abs(c - 51 * k), k)) for c in range(256)]
+
+
+def _grey_level(s2):
+    from fractions import Fraction
+
+    return round(Fraction(25 * s2, 510))  # Fraction.__round__ is exact round-half-even
+
+
+GREY_LEVEL = [_grey_level(s2) for s2 in range(511)]
+
+
+def doc256(t):
+    """The documented truecolor -> 256 mapping (color.py: "If saturation is under 10% assume it is grayscale", grey ramp
+    232..255 with black 16 / white 231 at the ends, else the 6x6x6 cube), in exact integer arithmetic."""
+    M, m = max(t), min(t)
+    if M == m:
+        grey = True
+    else:
+        den = (M + m) if (M + m) <= 255 else 510 - M - m  # saturation = (M-m)/den  (HLS, channels scaled to 0..1)
+        grey = 10 * (M - m) < den or (10 * (M - m) == den and (M, m) in FLOAT_TIE_GREYS)
+    if grey:
+        k = GREY_LEVEL[M + m]
+        return 16 if k == 0 else 231 if k == 25 else 231 + k
+    return 16 + 36 * CUBE_LEVEL[t[0]] + 6 * CUBE_LEVEL[t[1]] + CUBE_LEVEL[t[2]]
+
+
 class Oracle:
     """holds the raw palette data of the rich under test"""
 
@@ -123,6 +157,10 @@ class Oracle:
         self.std = raw(STANDARD_PALETTE)
         self.win = raw(WINDOWS_PALETTE)
         self.eight = raw(EIGHT_BIT_PALETTE)
+        from rich.terminal_theme import TerminalTheme
+
+        # a theme that displays STANDARD colours as the palette they are searched in
+        self.std_theme = TerminalTheme((0, 0, 0), (255, 255, 255), self.std[:8], self.std[8:])
 
     def source_triplet(self, c):
         """the RGB value the palette search is specified over (None: no search is specified)."""
@@ -166,6 +204,21 @@ class Oracle:
                 if res.number != want:
                     dn = dist2(src, pal[res.number]) if 0 <= res.number < len(pal) else None
                     out.append(("downgrade:nearest", f"picked entry {res.number} (distance^2 {dn}) for {src}, entry {want} has distance^2 {dist2(src, pal[want])} (ties go to the lowest index)", None))
+        # what the downgraded colour denotes is the matched / computed palette entry
+        if t == 3 and system in (1, 2, 4) and isinstance(res.number, int) and 0 <= res.number < 256:
+            try:
+                shown = tuple(res.get_truecolor(self.std_theme))
+            except Exception as e:  # noqa: BLE001
+                shown = "raised " + type(e).__name__
+            src = tuple(c.triplet)
+            want = self.eight[res.number] if system == 2 else (self.std if system == 1 else self.win)[nearest(self.std if system == 1 else self.win, src)]
+            if shown != want:
+                out.append(("downgrade+get_truecolor", f"the downgraded colour {res!r} number={res.number} is displayed as {shown}, the palette entry is {want}", None))
+        # the documented 256-colour mapping (grey test, grey ramp step, cube coordinates)
+        if system == 2 and t == 3:
+            want = doc256(tuple(c.triplet))
+            if res.number != want:
+                out.append(("downgrade:256-mapping", f"{tuple(c.triplet)} became colour number {res.number}; the documented mapping (nearest cube level per channel / grey ramp when saturation < 10%) gives {want}", None))
         # greys
         if system == 2 and t == 3 and c.triplet[0] == c.triplet[1] == c.triplet[2]:
             if not (res.number in (16, 231) or (isinstance(res.number, int) and 232 <= res.number <= 255)):
@@ -254,7 +307,7 @@ def work_block(job):
             ok = res.type == want_type and res.triplet is None and res.name == "" and isinstance(num, int)
             if ok:
                 if s == 2:
-                    ok = 16 <= num <= 255
+                    ok = 16 <= num <= 255 and num == doc256((r, g, b))
                     if ok and r == g == b:
                         ok = num in (16, 231) or num >= 232
                 else:
